@@ -6,6 +6,9 @@ ids = [p['id'] for p in props]
 E = 'exploration'; M = 'model_checking'; F = 'fault_enumeration'
 # id: (level, technique, level text, level_note, design_ref)
 checks = {
+ 'C18': (E, 'complete enumeration of synthesised trees (every node type x every subset of optional child fields) plus all parsed corpus/seed files, reflection oracle independent of Walk',
+         'For each of the 70 node types every subset of its optional child fields is populated and walked with both Walk and Inspect; the visit tree must equal the reflection-derived child tree (each child exactly once, nil after children). Parsed corpus and seed trees additionally check sibling order by position. The node-type x field-subset space is finite and fully covered.',
+         'Optional = documented \"or nil\" in ast/*.go or slice/map/any; synthetic parts (name of a file without package clause, non-body parts of shadow funcs) and FuncType position are exempt; deeper combinations than one node with leaf children are covered only through parsed trees.', '§2 C18'),
  'C13': (E, 'bounded-exhaustive enumeration of token sequences, byte strings, mode-flag combinations and 1-edit neighbourhoods, run in crash-attributing worker subprocesses',
          'Every token sequence up to 3 (quick) / 4 (thorough) tokens over a 73-token alphabet through four entry points, all 512 flag combinations on all <=2-token inputs, every byte string <=3 over the scanner alphabet and every 1-edit neighbour of ~90 hand seeds plus corpus files; oracle: returns, no escaping panic/fatal/hang, errors sorted, nil error implies no Bad node (reflection walk).',
          'Hang = no progress for 60 s on one input in a solo re-run; nothing is claimed for inputs longer than the bound that are not 1-edit neighbours of a seed.', '§2 C13'),
